@@ -10,6 +10,9 @@ from ..core import HarnessError, StepBudget
 ID = 'C05'
 TITLE = 'Calendar business-day arithmetic = day-by-day counting'
 LEVEL = 'exploration'
+TECHNIQUE = 'runtime monitoring: brute-force day-counting calendar model + registration histories (register / re-register / fetch by key) + step budgets on the adjust/add loops'
+LEVEL_TEXT = 'Held for every day of the inner range x n (thorough: all n in [-40,40]) on the configurations explored. A check says held on K observed executions, never verified.'
+LEVEL_NOTE = "Trusted: the day-walking model; dates stay inside the calendar range; drange claimed for '1b' with t0<=t1."
 RULE = ('a case is a registration history of 1-3 calendar configurations (holiday density 0-35% with forced multi-day runs across month ends and next to weekends, '
         'weekend in {Sat-Sun, Fri-Sat, Sun, none}, adj f/p/m, 2-year range) on 1-2 registry keys; after each registration the calendar fetched BY KEY is probed on every day of '
         'the inner range (150-day margins) x n (quick: 13 values incl. +-40; thorough: every n in [-40,40]); non-trivial = a configuration with a holiday run crossing a month end '
